@@ -353,3 +353,21 @@ def label_option(inp):
     strip = lambda d: {k: v for k, v in d.items() if not k.startswith("CELLSIG_")}
     bad = strip(a) != strip(b) or res["0"][1] != a or res["True"][1] != a or a != ref1[1] or b != ref2[1]
     return {"fails": bad, "expected": "agreement outside CELLSIG_*, and with the reference decoder", "observed": "differs" if bad else "agrees"}
+
+
+@check
+def name_helpers(inp):
+    """C19 on one producible attribute name."""
+    from pyrtcm.rtcmhelpers import att2idx, att2name, datadesc
+    from pyrtcm.rtcmtypes_core import RTCM_DATA_FIELDS
+    base, idx = inp["base"], inp["idx"]
+    name = base + "".join("_%02d" % i for i in idx)
+    exp = {"datadesc": ("ok", RTCM_DATA_FIELDS[base][3])}
+    obs = {"datadesc": outcome(datadesc, name)}
+    if idx:
+        exp["att2idx"] = ("ok", idx[0] if len(idx) == 1 else tuple(idx))
+        exp["att2name"] = ("ok", base)
+        obs["att2idx"] = outcome(att2idx, name)
+        obs["att2name"] = outcome(att2name, name)
+    bad = {k: (exp[k], obs[k][:2]) for k in exp if tuple(exp[k]) != tuple(obs[k][:2])}
+    return {"fails": bool(bad), "expected": {k: v[0] for k, v in bad.items()}, "observed": {k: v[1] for k, v in bad.items()}, "name": name}
